@@ -83,6 +83,19 @@ add(
     "DESIGN.md 6/C04",
 )
 
+add(
+    "C05",
+    "exploration",
+    "Rule-based histories (next_job / on_result in any order, NaN failures) on the synchronous and DEHB bracket managers, scheduler-level "
+    "histories with failures through the protocol driver, and complete enumeration of all result orders / failure subsets for five small "
+    "rung systems (1.2e6 histories quick, 1.1e7 thorough); oracle: reference bracket model (lowest open bracket first, new bracket when all "
+    "wait, bracket_rungs[id mod n], exact rung filling, promotions only from complete rungs and only of valid top entries).",
+    "Ties and NaN entries may be ordered either way. Five listed known findings (DEHB corner cases) are excluded by construction and counted; "
+    "the 'never blocks' clause is decided per call with a 3 s watchdog only inside the known-finding class.",
+    "property-based testing (Hypothesis choice tape, rule-based state machine) + exhaustive enumeration of small systems: reference bracket model",
+    "DESIGN.md 6/C05",
+)
+
 NOT_YET = {}
 
 ALL = [f"C{i:02d}" for i in range(1, 21)]
